@@ -10,6 +10,7 @@ using namespace ob;
 template <class K, size_t R, size_t M, int AXIS, bool NEG>
 void ob_c04_take(const mk_t<K,size_t,R>& shape_, const std::array<int,M>& indices_, const mk_t<K,size_t,R>& dst_, int axis, int t)
 {
+    assume_len<R>(shape_); assume_len<R>(dst_);
     const auto shape = shape_; auto indices = indices_; const auto dst = dst_;
     constexpr size_t ax = (size_t)(AXIS < 0 ? AXIS + (int)R : AXIS);
     ASSUME(axis == AXIS);
@@ -47,6 +48,7 @@ void ob_c04_take_negctl(const std::array<size_t,2>& shape_, const std::array<int
 #define TK(K,R,M,A) template void ob_c04_take<K,R,M,A,false>(const mk_t<K,size_t,R>&, const std::array<int,M>&, const mk_t<K,size_t,R>&, int, int); \
                     template void ob_c04_take<K,R,M,A,true>(const mk_t<K,size_t,R>&, const std::array<int,M>&, const mk_t<K,size_t,R>&, int, int);
 #define TKK(R,M,A) TK(k_std,R,M,A) TK(k_utl,R,M,A)
+TK(k_sv,2,3,0) TK(k_sv,2,2,-1) TK(k_sv,3,3,1)   // bounded run-time-length shapes
 TKK(1,3,0) TKK(1,2,-1) TKK(2,3,0) TKK(2,3,1) TKK(2,2,-1) TKK(2,2,-2) TKK(3,2,0) TKK(3,4,1) TKK(3,3,2) TKK(3,3,-1) TKK(3,2,-3)
 #ifdef VERIF_THOROUGH
 TKK(4,3,0) TKK(4,2,1) TKK(4,5,2) TKK(4,3,3) TKK(4,3,-1) TKK(4,2,-4) TKK(3,5,-2) TKK(2,4,0)
